@@ -771,6 +771,25 @@ def _innermost_loop(cfg, n):
     return best
 
 
+def rule_last_successful_run_is_a_run_number(eng, rep, rule="C10-4b.the-last-successful-run-is-a-run-number"):
+    """'Reached maximum number of unsuccessful restarts' is decided from `nruns - last_successful_run`.  That difference counts runs only if `last_successful_run` holds
+    a run number: every store is the literal 0 (no run yet) or the run counter handed to the method, without arithmetic -- an off-by-one here lets the message appear one
+    run early / late."""
+    n = 0
+    for fi in eng.prog.functions.values():
+        for node in eng.prog.own_nodes(fi):
+            if isinstance(node, ast.Assign) and any(isinstance(t, ast.Attribute) and t.attr == "last_successful_run" for t in node.targets):
+                n += 1
+                v = node.value
+                site = eng.where(fi, node)
+                if const_value(v) == 0 or (isinstance(v, ast.Name) and v.id in fi.all_params and "run" in v.id.lower()):
+                    rep.ok(rule, site, "last_successful_run = %s" % short(v, 30))
+                else:
+                    rep.bad(rule, site, "%s|last-successful-run-not-a-run-number|%s" % (fi.fid, short(v, 30)),
+                            "`last_successful_run = %s`: not the run counter itself (or the initial 0): the count of unsuccessful runs is off" % short(v))
+    rep.require_count(rule, "stores to last_successful_run", n, 2)
+
+
 def run(eng, rep):
     rep.explain("C10: for every ExitInformation construction whose message states a fact (small objective, rho reached rhoend, MAXFUN, "
                 "unsuccessful restarts) the fact is a control dependence of the construction, or -- where a message is conditionally overwritten "
@@ -781,6 +800,7 @@ def run(eng, rep):
     rep.not_decided += ["whether soln.obj is the small value when averaging noise re-orders points",
                         ]
     rep.guarded(rule_messages, eng, rep)
+    rep.guarded(rule_last_successful_run_is_a_run_number, eng, rep)
     # 'rho has reached rhoend' is built under not (rho > rhoend) (C10-2); together with rho >= rhoend (interval reasoning over reduce_rho and the parameter
     # table, shared with C18-8) the lower bound *equals* rhoend at that point
     from .c18 import rule_rho_between_rhoend_and_rhobeg
